@@ -67,7 +67,7 @@ CHECKS = {
                 text="One invocation at -j2/-j3 on graphs with shared nodes (diamond, 3-fan over a shared leaf, two targets over a shared chain in every command-line order "
                      "= every --shuffle outcome, shared checksummed node on a rebuild, a shared target that stopped recording a checksum, shared redo-always node); every schedule with <= b deviations (quick 1, thorough 2). "
                      "No script starts twice; exit status, every file's content, the set of built targets and the canonical database state (flags, csum, stamp class, which "
-                     "run-id columns are set, dependency edges) equal the serial run's. --shuffle is enumerated through a hook (REDO_VERIF_SHUFFLE=k selects the k-th permutation of every list): all 24 permutations of lists of <= 4 names with repeated entries, redo and redo-ifchange, fresh and rebuild, -j1 and free-running -j2. "At most once per run" is judged absolutely (not against the serial run of the same binary); two jobs asking for one file through two names of its directory; two jobs that go on without a shared dependency that fails.",
+                     "run-id columns are set, dependency edges) equal the serial run's. --shuffle is enumerated through a hook (REDO_VERIF_SHUFFLE=k selects the k-th permutation of every list): all 24 permutations of lists of <= 4 names with repeated entries, redo and redo-ifchange, fresh and rebuild, -j1 and free-running -j2. 'At most once per run' is judged absolutely (not against the serial run of the same binary); two jobs asking for one file through two names of its directory; two jobs that go on without a shared dependency that fails.",
                 note="The shuffle permutation hook of the design was replaced by enumerating the command-line orders explicitly (same set of orders). Graph sizes as listed."),
     "C08": dict(engine="E2 + harness as jobserver parent", category="model_checking", design_ref="DESIGN.md §4 C08, appendix A",
                 technique="stateless model checking with the harness owning the GNU-make token pipe; token-conservation and concurrency-limit oracle on the event order",
